@@ -100,20 +100,20 @@ func (c *clientStream) Header() (metadata.MD, error) {
 		select {
 		case <-c.headerC:
 			// we should still return the headers if we have them, even if the context is done
-			return c.getHeader(), nil
+			return cloneMD(c.getHeader()), nil // the caller's own copy, like over a real connection
 		default:
 			// when the stream is terminated without headers, ClientStream should return a nil error
 			return nil, nil
 		}
 	case <-c.headerC:
-		return c.getHeader(), nil
+		return cloneMD(c.getHeader()), nil // the caller's own copy, like over a real connection
 	}
 }
 
 func (c *clientStream) Trailer() metadata.MD {
 	c.mu.Lock()
 	defer c.mu.Unlock()
-	return c.trailer
+	return cloneMD(c.trailer) // the caller's own copy, like over a real connection
 }
 
 func (c *clientStream) CloseSend() error {
